@@ -15,9 +15,9 @@ import numpy as np
 
 from .. import vlib
 from . import _stream as S
-from .c03 import cls_of
+from .c03 import cls_of, density_windows
 
-LEAN_TARGETS = ["SkaModel.Props.C10"]
+LEAN_TARGETS = ["SkaModel.Props.C10", "SkaModel.Props.C03dens"]
 # theorems about, and the executable of, the model translated from the current Python source on every run
 GEN_TARGETS = ["SkaModel.Props.StreamGen", "skagendriver"]
 
@@ -311,6 +311,7 @@ def correspond(ctx):
             for t in range(10 if not ctx.thorough else 80):
                 chunk_pair(ctx, lines, expect, S.gen_case(rng, kind, boundary=(t % 2 == 0), n=rng.randint(4, 40)), rng)
     S.compare_models(ctx, lines, expect)
+    density_windows(ctx, 60 if not ctx.thorough else 600)   # ties Core/Density.lean (C03dens.density_update_commits_query)
     names, missing = S.strategy_grid()
     if missing:
         ctx.broken.append(f"classes exported by skactiveml.stream that the C10 grid does not cover: {missing}")
